@@ -548,7 +548,45 @@ def m_vec_extend(engine, st, fr, callee, args, ops):
     return UNIT
 
 
+def _apply_effect(engine, st, clo, argv):
+    """run the closure for its effects too: the (single) returning path's memory, path condition and events become the caller's"""
+    fn = engine.resolve_fn(clo.name)
+    res = engine.call_pure(st, fn, [_clo_arg(engine, st, clo, fn)] + list(argv))
+    rets = [r for r in res if r.status == "return"]
+    if len(res) != 1 or len(rets) != 1:
+        raise Unsupported("closure with effects forks or panics (%d paths)" % len(res))
+    r = rets[0]
+    keep = {k: v for k, v in st.mem.items() if isinstance(k, tuple) and k and isinstance(k[0], int) and k not in r.mem}
+    st.mem.clear()
+    st.mem.update(r.mem)
+    st.mem.update(keep)
+    st.pc[:] = list(r.pc)
+    st.events[:] = list(r.events)
+    return r.value
+
+
+def m_for_each(engine, st, fr, callee, args, ops):
+    for x in _items(engine, st, args[0]):
+        _apply_effect(engine, st, args[1], [x])
+    return UNIT
+
+
 def m_find_map(engine, st, fr, callee, args, ops):
+    it0 = sym._deref_arg(engine, st, args[0]) if isinstance(args[0], Ref) else args[0]
+    if isinstance(it0, Adt) and it0.ty == "CIterCond":
+        # a filter with undecided predicate values in front: element i is looked at iff its condition holds
+        items, conds = list(it0.fields[0].items), list(it0.fields[1].items)
+        alts, before = [], []
+        for x, c in zip(items, conds):
+            out = _apply(engine, st, args[1], [x])
+            if not (isinstance(out, Adt) and out.variant in ("Some", "None")):
+                raise Unsupported("find_map with a symbolic Option")
+            if out.variant == "Some":
+                alts.append((z3.simplify(z3.And(*(before + [c]))), out))
+                before.append(z3.Not(c))
+        alts.append((z3.simplify(z3.And(*before)) if before else True, none()))
+        alts = [(c, v) for c, v in alts if not (z3.is_expr(c) and z3.is_false(c))]
+        return alts[0][1] if len(alts) == 1 else Fork(alts)
     for x in _items(engine, st, args[0]):
         out = _apply(engine, st, args[1], [x])
         if isinstance(out, Adt) and out.variant == "Some":
@@ -775,14 +813,12 @@ def m_map(engine, st, fr, callee, args, ops):
 
 
 def m_filter(engine, st, fr, callee, args, ops):
-    out = []
-    for x in _items(engine, st, args[0]):
-        c = _concrete_bool(_as_bool(_apply(engine, st, args[1], [_by_ref(engine, st, x)])))
-        if c is None:
-            raise Unsupported("filter with a symbolic predicate value")
-        if c:
-            out.append(x)
-    return citer(out)
+    items = _items(engine, st, args[0])
+    conds = [z3.simplify(_as_bool(_apply(engine, st, args[1], [_by_ref(engine, st, x)]))) for x in items]
+    if all(_concrete_bool(c) is not None for c in conds):
+        return citer([x for x, c in zip(items, conds) if _concrete_bool(c)])
+    # undecided predicate values: keep them with the elements (understood by find_map / next / count / any)
+    return Adt("CIterCond", None, [Arr(items), Arr(conds)])
 
 
 def m_take_skip_while(engine, st, fr, callee, args, ops):
@@ -979,6 +1015,7 @@ MODELS = [
     (r"^<" + ITER + r" as Iterator>::find::<", m_find),
     (r"^<" + ITER + r" as Iterator>::position::<", m_position),
     (r"^<" + ITER + r" as Iterator>::find_map::<", m_find_map),
+    (r"^<" + ITER + r" as Iterator>::for_each::<", m_for_each),
     (r"^<" + ITER + r" as Iterator>::(any|all)::<", m_any_all),
     (r"^<" + ITER + r" as Iterator>::count$", m_count),
     (r"^<" + ITER + r" as Iterator>::last$", m_last),
